@@ -28,11 +28,11 @@ def one(patch, suite, tier):
             return res
         if suite:
             b = os.path.join(scratch, '_b')
-            r = subprocess.run('cmake -G Ninja -S . -B _b -DCMAKE_BUILD_TYPE=Release >/dev/null && cmake --build _b -j16 >/dev/null 2>_b.err && ctest --test-dir _b -j8 --timeout 900 2>&1 | tail -3',
+            r = subprocess.run('cmake -G Ninja -S . -B _b -DCMAKE_BUILD_TYPE=Release >/dev/null && cmake --build _b -j16 >_b.err 2>&1 && ctest --test-dir _b -j8 --timeout 900 2>&1 | grep -E "tests passed|Failed|\\*\\*\\*" | head -8',
                                shell=True, cwd=scratch, capture_output=True, text=True)
             out = r.stdout + r.stderr
             mm = re.search(r'(\d+)% tests passed, (\d+) tests failed out of (\d+)', out)
-            res['suite'] = mm.group(0) if mm else ('BUILD-FAILED ' + open(os.path.join(scratch, '_b.err')).read()[-300:] if os.path.exists(os.path.join(scratch, '_b.err')) else out[-300:])
+            res['suite'] = mm.group(0) if mm else ('BUILD-FAILED ' + open(os.path.join(scratch, '_b.err')).read()[-1500:] if os.path.exists(os.path.join(scratch, '_b.err')) else out[-300:])
             shutil.rmtree(b, ignore_errors=True)
         env = dict(os.environ, VERIF_REPO=scratch, VERIF_EVIDENCE_DIR=os.path.join(scratch, '_ev'), VERIF_OUT_DIR=os.path.join(scratch, '_out'))
         t0 = time.time()
